@@ -156,6 +156,31 @@ def handle (toks : List String) : String :=
     match builderRun ops with
     | some bs => showBits bs
     | none => "bad-op"
+  | ["assign", name, uniq, l, lo, r, ro, len] =>
+    match bop name, wop name, buf l, lo.toNat?, buf r, ro.toNat?, len.toNat? with
+    | some fb, some fw, some (lv, ln), some lo, some (rv, rn), some ro, some len =>
+      if lo + len > 8 * ln ∨ ro + len > 8 * rn then "ERR:oob" else
+      check (showBits (bitAssign (decide (uniq = "1")) fw lv lo rv ro len))
+            (showBits (List.zipWith fb (bitsOf lv lo len) (bitsOf rv ro len)))
+    | _, _, _, _, _, _, _ => "bad-op"
+  | ["unionmany", len, parts] =>
+    match len.toNat?, (parts.splitOn ";").mapM (fun p =>
+        match p.splitOn ":" with
+        | [b, o] => (match buf b, o.toNat? with
+                     | some (v, n), some o => some (v, n, o)
+                     | _, _ => none)
+        | _ => none) with
+    | some len, some ms =>
+      if ms.any (fun (m : Nat × Nat × Nat) => m.2.2 + len > 8 * m.2.1) then "ERR:oob" else
+      let bs := ms.foldl (fun acc (m : Nat × Nat × Nat) => List.zipWith (· && ·) acc (bitsOf m.1 m.2.2 len)) (List.replicate len true)
+      s!"{showBits bs} {len - countTrue bs}"
+    | _, _ => "bad-op"
+  | ["contains", l, lo, r, ro, len] =>
+    match buf l, lo.toNat?, buf r, ro.toNat?, len.toNat? with
+    | some (lv, ln), some lo, some (rv, rn), some ro, some len =>
+      if lo + len > 8 * ln ∨ ro + len > 8 * rn then "ERR:oob" else
+      showBool ((List.zipWith (fun a b => !a || b) (bitsOf lv lo len) (bitsOf rv ro len)).all id)
+    | _, _, _, _, _ => "bad-op"
   | ["nullunion", l, lo, r, ro, len] =>
     match buf l, lo.toNat?, buf r, ro.toNat?, len.toNat? with
     | some (lv, ln), some lo, some (rv, rn), some ro, some len =>
